@@ -42,7 +42,38 @@ def callee_pick_four(eng, st, args, kw, node):
     return core.TupleV(vs)
 
 
-DEFAULT_CALLEES = {'pick_four_unique_nodes_quickly': callee_pick_four, 'get_rng': callee_get_rng, 'number_of_components': callee_number_of_components}
+def _cols(eng, st, M, f):
+    from . import npspec
+    m = npspec.as_mat(eng, st, M)
+    ref = M if isinstance(M, core.Ref) else npspec.materialise(eng, st, m)
+    t = st.heap[ref.oid].term
+    n = core.to_z3(m.shape[0], core.INT)
+    return t, n, m
+
+
+def callee_degrees_und(eng, st, args, kw, node):
+    """contract of bct.degrees_und (np.sum(binarize(CIJ), axis=0)): deg[q] = number of nonzero entries of column q."""
+    t, n, m = _cols(eng, st, args[0], None)
+    return core.Row(m.shape[0], lambda q: core.ccnt(t, q, n), core.INT)
+
+
+def callee_degrees_dir(eng, st, args, kw, node):
+    """contract of bct.degrees_dir: (column counts, row counts, their sum)."""
+    t, n, m = _cols(eng, st, args[0], None)
+    import z3
+    idg = core.Row(m.shape[0], lambda q: core.ccnt(t, q, n), core.INT)
+    odg = core.Row(m.shape[0], lambda q: core.cnt1(z3.Select(t, q), n), core.INT)
+    deg = core.Row(m.shape[0], lambda q: core.ccnt(t, q, n) + core.cnt1(z3.Select(t, q), n), core.INT)
+    return core.TupleV((idg, odg, deg))
+
+
+def callee_strengths_und(eng, st, args, kw, node):
+    """contract of bct.strengths_und (np.sum(CIJ, axis=0)): str[q] = sum of column q."""
+    t, n, m = _cols(eng, st, args[0], None)
+    return core.Row(m.shape[0], lambda q: core.csum(t, q, n), core.REAL)
+
+
+DEFAULT_CALLEES = {'degrees_und': callee_degrees_und, 'degrees_dir': callee_degrees_dir, 'strengths_und': callee_strengths_und, 'pick_four_unique_nodes_quickly': callee_pick_four, 'get_rng': callee_get_rng, 'number_of_components': callee_number_of_components}
 
 
 def generate(contract, callees=None):
